@@ -1,1 +1,183 @@
-(* stub: to be written by group Questrade *)
+(* C18: src/peripheral/broker/broker_tx.rs (Account, BrokerTx, its ordering)
+   and src/peripheral/broker/fx_tracker.rs (FxtRow, FxTracker).
+   Memo and file name of BrokerTx are not modelled (the property does not
+   speak about them).  Dates are (year, month, day) triples.  Definitions
+   only. *)
+From Coq Require Import List NArith ZArith QArith Qcanon Bool.
+From ACB Require Import Base.Outcome Base.QcExtra Base.Fit Base.Arith Model.QText.
+Import ListNotations.
+Local Open Scope N_scope.
+
+Definition date3 := (N * N * N)%type.
+Definition date_cmp (a b : date3) : comparison :=
+  let '(y1, m1, d1) := a in
+  let '(y2, m2, d2) := b in
+  match N.compare y1 y2 with
+  | Eq => match N.compare m1 m2 with Eq => N.compare d1 d2 | c => c end
+  | c => c
+  end.
+Definition date_eqb (a b : date3) : bool :=
+  match date_cmp a b with Eq => true | _ => false end.
+
+Record account := { ac_type : text; ac_num : text }.
+Definition account_eqb (a b : account) : bool :=
+  text_eqb (ac_type a) (ac_type b) && text_eqb (ac_num a) (ac_num b).
+(* Account::account_str: "{type} {num}" *)
+Definition account_str (a : account) : text := ac_type a ++ 32 :: ac_num a.
+
+Record btx := {
+  b_sec : text;
+  b_td : date3;  b_sd : date3;
+  b_tdt : text;  b_sdt : text;       (* the full date cells: sort tie-break *)
+  b_buy : bool;                       (* TxAction::Buy / Sell *)
+  b_price : Qc;  b_shares : Qc;  b_comm : Qc;
+  b_cur : text;                       (* Currency (upper case, "" => CAD) *)
+  b_rate : option Qc;
+  b_reg : bool;                       (* Affiliate::default_registered() / default() *)
+  b_row : N;
+  b_acct : account;
+  b_tb : option N                     (* sort_tiebreak *)
+}.
+
+Definition t_CAD : text := [67; 65; 68].
+Definition t_USD : text := [85; 83; 68].
+Definition t_dotFX : text := [46; 70; 88].
+
+(* Currency::new *)
+Definition currency_of (s : text) : text :=
+  match upper s with
+  | [] => t_CAD
+  | u => u
+  end.
+Definition cur_is_default (c : text) : bool := text_eqb c t_CAD.
+
+(* ---- BrokerTx ordering (broker_tx.rs:51-100) ---- *)
+Definition tb_cmp (a b : option N) : comparison :=
+  match a, b with
+  | Some x, Some y => N.compare x y
+  | Some _, None => Gt
+  | None, Some _ => Lt
+  | None, None => Eq
+  end.
+
+Definition btx_cmp (a b : btx) : comparison :=
+  match date_cmp (b_sd a) (b_sd b) with
+  | Eq =>
+      match text_cmp (b_sdt a) (b_sdt b) with
+      | Eq =>
+          match tb_cmp (b_tb a) (b_tb b) with
+          | Eq => N.compare (b_row a) (b_row b)
+          | c => c
+          end
+      | c => c
+      end
+  | c => c
+  end.
+
+Definition btx_le (a b : btx) : bool :=
+  match btx_cmp a b with Gt => false | _ => true end.
+
+(* Vec::sort is a stable sort: stable insertion sort on the same order *)
+Fixpoint insert_sorted (x : btx) (l : list btx) : list btx :=
+  match l with
+  | [] => [x]
+  | y :: r => if btx_le x y then x :: l else y :: insert_sorted x r
+  end.
+(* inserting from the right keeps equal elements in their original order *)
+Definition sort_btx (l : list btx) : list btx := fold_right insert_sorted [] l.
+
+(* ---- error classes of the conversion (col = 0 when no column is involved) ---- *)
+Module QErr.
+  Definition unrecognized_action : N := 2000.
+  Definition bad_date (col : N) : N := 2100 + col.
+  Definition symbol_empty : N := 2200.
+  Definition fxt_not_one_cad : N := 2300.
+  Definition fxt_dates_differ : N := 2400.
+  Definition fxt_accounts_differ : N := 2500.
+  Definition fxt_both_positive : N := 2600.
+  Definition fxt_both_negative : N := 2700.
+  Definition fx_currency_unsupported : N := 2800.
+  Definition unpaired_fxt : N := 2900.
+  Definition no_column (col : N) : N := 100 + col.
+  Definition bad_number (col : N) : N := 400 + col.
+  Definition empty_value (col : N) : N := 500 + col.
+  Definition bool_value (col : N) : N := 600 + col.
+  Definition float_unconvertible (col : N) : N := 700 + col.
+  Definition model_gap (col : N) : N := 900 + col.   (* Decimal::from_str outside the modelled grammar *)
+End QErr.
+
+(* ---- FxTracker ---- *)
+Record fxt_row := {
+  fr_row : N; fr_cur : text; fr_reg : bool; fr_td : date3; fr_tdt : text;
+  fr_amount : Qc; fr_acct : account
+}.
+
+Record tracker := { tk_adj : option fxt_row; tk_txs : list btx }.
+Definition tracker_new : tracker := {| tk_adj := None; tk_txs := [] |}.
+
+(* FxTracker::fx_tx *)
+Definition fx_tx (cur : text) (td : date3) (tdt : text) (amount : Qc) (reg : bool)
+           (row : N) (acct : account) (rate : option Qc) : N + btx :=
+  if text_eqb cur t_USD then
+    let buy := Qcltb 0 amount in
+    inr {| b_sec := cur ++ t_dotFX; b_td := td; b_sd := td; b_tdt := tdt; b_sdt := tdt;
+           b_buy := buy; b_price := 1%Qc; b_shares := Qcabs amount; b_comm := 0%Qc;
+           b_cur := cur; b_rate := rate; b_reg := reg; b_row := row; b_acct := acct;
+           b_tb := Some (if buy then 1 else 2) |}
+  else inl QErr.fx_currency_unsupported.
+
+Section Tracker.
+  Variable A : arith.
+
+  (* add_fxt_row: the new tracker and the error of the row, if any.  The
+     pending row is consumed even when the pair is rejected. *)
+  Definition add_fxt_row (tk : tracker) (fr : fxt_row) : res (tracker * option N) :=
+    match tk_adj tk with
+    | None => Ok ({| tk_adj := Some fr; tk_txs := tk_txs tk |}, None)
+    | Some adj =>
+        let tk0 := {| tk_adj := None; tk_txs := tk_txs tk |} in
+        let '(cad, other) := if text_eqb (fr_cur adj) t_CAD then (adj, fr) else (fr, adj) in
+        if negb (text_eqb (fr_cur cad) t_CAD) || text_eqb (fr_cur other) t_CAD then
+          Ok (tk0, Some QErr.fxt_not_one_cad)
+        else if negb (date_eqb (fr_td other) (fr_td cad)) then
+          Ok (tk0, Some QErr.fxt_dates_differ)
+        else if negb (Bool.eqb (fr_reg other) (fr_reg cad))
+                || negb (account_eqb (fr_acct other) (fr_acct cad)) then
+          Ok (tk0, Some QErr.fxt_accounts_differ)
+        else
+          prod <- a_mul A (fr_amount cad) (fr_amount other) ;;
+          if Qcltb 0 prod then
+            Ok (tk0, Some (if Qcltb 0 (fr_amount cad) then QErr.fxt_both_positive
+                           else QErr.fxt_both_negative))
+          else
+            q <- a_div A (fr_amount cad) (fr_amount other) ;;
+            match fx_tx (fr_cur other) (fr_td other) (fr_tdt other) (fr_amount other)
+                        (fr_reg other) (fr_row fr) (fr_acct other) (Some (Qcabs q)) with
+            | inl e => Ok (tk0, Some e)
+            | inr t => Ok ({| tk_adj := None; tk_txs := tk_txs tk ++ [t] |}, None)
+            end
+    end.
+
+  (* add_implicit_fxt: called for every trade whose currency is not CAD *)
+  Definition add_implicit_fxt (tk : tracker) (t : btx) : res (tracker * option N) :=
+    gross <- a_mul A (b_price t) (b_shares t) ;;
+    let signed := if b_buy t then (- gross)%Qc else gross in
+    amount <- a_sub A signed (b_comm t) ;;
+    if Qceqb amount 0 then Ok (tk, None)
+    else match fx_tx (b_cur t) (b_td t) (b_tdt t) amount (b_reg t) (b_row t) (b_acct t) None with
+         | inl e => Ok (tk, Some e)
+         | inr x => Ok ({| tk_adj := tk_adj tk; tk_txs := tk_txs tk ++ [x] |}, None)
+         end.
+End Tracker.
+
+(* add_income_fx_tx *)
+Definition add_income (tk : tracker) (t : btx) : tracker :=
+  {| tk_adj := tk_adj tk; tk_txs := tk_txs tk ++ [t] |}.
+
+(* get_fx_txs: the generated transactions and the "Unpaired FXT" error *)
+Definition get_fx_txs (tk : tracker) : list btx * option (N * N) :=
+  (tk_txs tk,
+   match tk_adj tk with
+   | Some adj => Some (fr_row adj, QErr.unpaired_fxt)
+   | None => None
+   end).
